@@ -112,4 +112,72 @@ theorem idString_injective (m1 r1 m2 r2 : Nat) (h1 : m1 < 18446744073709551616) 
   simp only [Option.some.injEq, Prod.mk.injEq] at a
   exact ⟨a.1.symm, a.2.symm⟩
 
+/-! ## the proxy -> store hop of a fetch: `Ingestor.makeFetchReq` and the store's `extractIDs` -/
+
+/-- an ID with its fraction hint (`seq.IDSource`; the hint is an opaque string) -/
+structure IDSrc where
+  mid : Nat
+  rid : Nat
+  hint : List Nat
+deriving DecidableEq, Repr
+
+/-- `storeapi.FetchRequest` as far as IDs go: `Ids` and `IdsWithHints` -/
+structure FetchReq where
+  ids : List (List Nat)
+  idsWithHints : List (List Nat × List Nat)
+deriving DecidableEq, Repr
+
+/-- `makeFetchReq`: both lists are filled, one entry per ID, in the order given -/
+def makeFetchReq (ids : List IDSrc) : FetchReq :=
+  ⟨ids.map fun i => idString i.mid i.rid, ids.map fun i => (idString i.mid i.rid, i.hint)⟩
+
+/-- `extractIDsWithHints` / `extractIDsNoHints`: the first text that does not parse fails the whole request -/
+def extractWith : List (List Nat × List Nat) → Option (List IDSrc)
+  | [] => some []
+  | (x, h) :: rest =>
+    match fromString x, extractWith rest with
+    | some (m, r), some tl => some (⟨m, r, h⟩ :: tl)
+    | _, _ => none
+
+def extractNo : List (List Nat) → Option (List IDSrc)
+  | [] => some []
+  | x :: rest =>
+    match fromString x, extractNo rest with
+    | some (m, r), some tl => some (⟨m, r, []⟩ :: tl)
+    | _, _ => none
+
+/-- `extractIDs`: the hinted list wins when it is not empty -/
+def extractIDs (req : FetchReq) : Option (List IDSrc) :=
+  if req.idsWithHints.length ≠ 0 then extractWith req.idsWithHints else extractNo req.ids
+
+/-- **the hop is the identity**: the store reads exactly the IDs (and hints) the proxy was asked to fetch, in order -/
+theorem extractIDs_makeFetchReq (ids : List IDSrc)
+    (h : ∀ i, i ∈ ids → i.mid < 18446744073709551616 ∧ i.rid < 18446744073709551616) :
+    extractIDs (makeFetchReq ids) = some ids := by
+  have hw : extractWith (ids.map fun i => (idString i.mid i.rid, i.hint)) = some ids := by
+    induction ids with
+    | nil => rfl
+    | cons i tl ih =>
+      obtain ⟨h1, h2⟩ := h i (by simp)
+      simp only [List.map_cons, extractWith, fromString_idString i.mid i.rid h1 h2,
+        ih (fun j hj => h j (by simp [hj]))]
+  unfold extractIDs makeFetchReq
+  cases ids with
+  | nil => rfl
+  | cons i tl =>
+    rw [if_pos (by simp)]
+    exact hw
+
+/-- a request without hints (an older proxy) loses only the hints -/
+theorem extractNo_ids (ids : List IDSrc)
+    (h : ∀ i, i ∈ ids → i.mid < 18446744073709551616 ∧ i.rid < 18446744073709551616) :
+    extractNo (makeFetchReq ids).ids = some (ids.map fun i => ⟨i.mid, i.rid, []⟩) := by
+  unfold makeFetchReq
+  induction ids with
+  | nil => rfl
+  | cons i tl ih =>
+    obtain ⟨h1, h2⟩ := h i (by simp)
+    simp only [List.map_cons, extractNo, fromString_idString i.mid i.rid h1 h2]
+    rw [ih (fun j hj => h j (by simp [hj]))]
+
 end SV.IDStr
